@@ -25,8 +25,10 @@ LABELS = {
     "C14": {"unescape.xml", "function.chr", "function.unescape", "codec.uft-16"},
     "C15": {"concatenation", "reverse", "vba.reverse", "replace", "vba.replace"},
 }
-PRE = [b"", b" ", b"x = ", b"abc;\n", b"1234567 ", b"\x00\x01 ", b"y = CreateObject(", b"call f("]
-SUF = [b"", b" ", b";", b"\n", b" tail", b")", b") : z", b" "]
+PRE = [b"", b" ", b"x = ", b"abc;\n", b"1234567 ", b"\x00\x01 ", b"y = CreateObject(", b"call f(",
+       # an earlier call of the same family that cannot be decoded / encoded (it must not stop the later, valid one from being reported)
+       b"atob('YWI'); Base64Decode(\"Q\"); FromBase64String('A'); chrw(56000) & ", b"FromHexString('zz') unescape('%zz') chr(55296) "]
+SUF = [b"", b" ", b";", b"\n", b" tail", b")", b") : z", b" ", b" + y", b" & var_1"]
 
 
 def b2l(b: bytes) -> list[int]:
@@ -135,6 +137,7 @@ def instances(prop: str, tier: str, rng: random.Random) -> list[dict]:
     elif prop == "C14":
         allb = bytes(range(256))
         chunks = [allb[i:i + 8] for i in range(0, 256, 8)] + [rb(rng, n) for n in (4, 5, 6, 7, 20)]
+        chunks += [b"&#65;&#66;", b"&#x41;&#x42;", b"x&#65;", b"&amp;#65;", b"%41%42%43"]      # plaintext that itself spells references / escapes
         for p in chunks:
             add("xmldec", p, b"".join(b"&#%d;" % c for c in p))
             add("xmlhex", p, b"".join(b"&#x%02x;" % c for c in p))
